@@ -170,6 +170,8 @@ def make_units(tier):
                 continue  # quick: the second default policy only for the fragmenting configurations of the endings family
             units.append(dict(u, src='c10', monitors=['legality']))
         for u in c09.make_units(tier):
+            if u['bound'] > 1:
+                continue  # quick: the cancel family at bound 1 under both policies (bound 2 is in C09's own check and in the thorough tier)
             units.append(dict(u, src='c09', monitors=['legality']))
         return units
     # thorough (sized to complete inside the budget on 16 cores): every C01 thorough configuration once at bound 1 under both
